@@ -1,30 +1,90 @@
 (* C13 -- Disk space is reclaimed and segment identities are never reused.
-   INTERIM file: the full statement is `crash_refinement_stmt` of Wal/Hist.v
-   (all histories of calls, power losses at any I/O boundary with any adversary
-   choice, nested crashes inside recovery, reopen cycles; see its comment for how
-   it covers C13).  Its proof is in progress; until it lands only the fragments
-   below are proved and the property is otherwise carried by the executable
-   acceptance predicate `hist_run`/`hs_ok` (evaluated on random histories of
-   the model on every run) and by the crash-image enumeration on the
-   implementation (stream `crash`). *)
-From RW Require Import Base.Bytes Fmt.Codec Fmt.Frame Wal.Model Wal.Spec Wal.Hist Wal.BasicFacts.
+   Only statements here; proofs in Wal/Crash*.v.  Histories, guards and the crash
+   adversary are described in Props/C01.v.  Every crash point is covered BY PROOF.
+   (Deletion delayed by readers that still hold a segment open is not part of this
+   model: files are deleted when the call that drops them returns.) *)
+From RW Require Import Base.Bytes Fmt.Codec Fmt.Frame Wal.Model Wal.Spec Wal.Hist
+  Wal.CrashInv Wal.CrashCalls10 Wal.CrashThm Wal.CrashExamples Wal.CrashExamplesFacts.
 Open Scope N_scope.
 
-(* the full statement (not yet a theorem) *)
-Definition C13_full_statement : Prop := crash_refinement_stmt.
+Theorem C13_crash_refinement : crash_refinement_stmt.
+Proof. exact crash_refinement. Qed.
+Print Assumptions C13_crash_refinement.
 
-(* proved fragment: after the first Open the directory holds exactly the listed tail
-   segment; a file that never became durable and is not kept by the adversary is gone
-   after a power loss *)
-Theorem C13_first_open_dir_exact_partial :
-  forall c, cfg_ok c ->
-  exists w e, open_wal c fresh_env = (OOk w, e) /\ abs w (e_disk e) = sl_empty /\
-              dir_exact (e_disk e) = true /\ dk_stable (e_disk e) = [] /\
-              first_index (st_segs w) (st_tail w) = 0 /\ last_index (st_segs w) (st_tail w) = 0.
-Proof. exact first_open. Qed.
-Print Assumptions C13_first_open_dir_exact_partial.
+(* After Open on any crash image (crashes interrupting truncations, rotations, appends or
+   earlier recoveries, any adversary choice) the directory holds exactly the files of the
+   segments listed in the metadata: [dir_exact]; and no action of that Open failed. *)
+Theorem C13_dir_exact_after_open :
+  forall c steps d,
+    (cfg_ok c /\ Forall hstep_wf steps /\ short_enough steps) ->
+    hs_mode (hist_run c hist_init steps) = Down d ->
+    exists w e, open_wal c (env_of d) = (OOk w, e) /\
+      ({| sp_log := abs w (e_disk e); sp_kv := dk_stable (e_disk e) |} = hs_acked (hist_run c hist_init steps) \/
+       {| sp_log := abs w (e_disk e); sp_kv := dk_stable (e_disk e) |} = hs_may (hist_run c hist_init steps)) /\
+      dir_exact (e_disk e) = true /\ Forall not_fail (e_acts e).
+Proof. exact recovery_after_any_history. Qed.
+Print Assumptions C13_dir_exact_after_open.
 
-Theorem C13_nondurable_file_dropped_partial :
-  forall c n f, df_dir f = false -> mem_name n (cc_keep_file c) = false -> crash_file c (n, f) = [].
-Proof. exact crash_file_nondurable_dropped. Qed.
-Print Assumptions C13_nondurable_file_dropped_partial.
+(* the same for Close followed by Open without a crash *)
+Theorem C13_dir_exact_after_reopen :
+  forall c steps s,
+    (cfg_ok c /\ Forall hstep_wf (steps ++ [HOp OReopen]) /\ short_enough (steps ++ [HOp OReopen])) ->
+    hs_mode (hist_run c hist_init steps) = Up s ->
+    fst (step_model c s OReopen) = ROk /\
+    dir_exact (e_disk (ss_env (snd (step_model c s OReopen)))) = true.
+Proof. exact reopen_dir_exact. Qed.
+Print Assumptions C13_dir_exact_after_reopen.
+
+(* In every history no I/O action ever fails; in particular `AFail (ACreate ..)`, the
+   record of a Create that found the file name taken (O_EXCL), never occurs: creating a
+   segment never collides with an existing file.  The trace [e_acts] holds all actions
+   since the last Open, including that Open's; the statement holds after EVERY history,
+   hence for every call and every recovery of every history (the disk of an interrupted
+   call is built from a prefix of the same action list). *)
+Theorem C13_no_create_collision :
+  forall c steps s,
+    (cfg_ok c /\ Forall hstep_wf steps /\ short_enough steps) ->
+    hs_mode (hist_run c hist_init steps) = Up s ->
+    let a := hs_acked (hist_run c hist_init steps) in
+    hs_may (hist_run c hist_init steps) = a /\
+    {| sp_log := abs (ss_wal s) (e_disk (ss_env s)); sp_kv := dk_stable (e_disk (ss_env s)) |} = a /\
+    (forall i, fst (get_log (ss_wal s) i (ss_env s)) =
+               match spec_get (sp_log a) i with Some l => RLog l | None => RErrNotFound end) /\
+    first_index_op (ss_wal s) = RVal (spec_first (sp_log a)) /\
+    last_index_op (ss_wal s) = RVal (spec_last (sp_log a)) /\
+    (forall k, fst (get_stable (ss_wal s) k (ss_env s)) = RBytes (kv_get k (sp_kv a))) /\
+    Forall not_fail (e_acts (ss_env s)).
+Proof. exact live_state_is_ledger. Qed.
+Print Assumptions C13_no_create_collision.
+
+(* On every reachable disk -- running or crashed, at the end of any history -- every file
+   has an id below the NextSegmentID of the committed metadata: ids are committed before
+   files are created, so a new segment (id = NextSegmentID) shares neither id nor file
+   name with any file that exists or existed since. *)
+Theorem C13_ids_below_next :
+  forall c steps ps n f,
+    (cfg_ok c /\ Forall hstep_wf steps /\ short_enough steps) ->
+    dk_meta (disk_of (hist_run c hist_init steps)) = Some ps ->
+    lookup n (dk_files (disk_of (hist_run c hist_init steps))) = Some f -> snd n < ps_next_id ps.
+Proof. exact ids_below_next. Qed.
+Print Assumptions C13_ids_below_next.
+
+(* ---- non-vacuity --------------------------------------------------------------------
+   G: head truncation interrupted after its metadata commit: the old segment's file
+      ((1,0)) is still in the directory of the crash image although only segment 3 is
+      listed; Open removes it (hs_ok includes dir_exact).
+   E: tail truncation interrupted after its commit: the new tail (base 3, id 1) is listed
+      but has no file; Open creates it; NextSegmentID (2) is above every file id. *)
+Example C13_ex_guards : hist_ok cfg128 hist_head_trunc /\ hist_ok cfg256 hist_trunc_after_commit.
+Proof. exact (conj hist_head_trunc_ok hist_trunc_after_commit_ok). Qed.
+Example C13_ex_garbage_removed :
+  final_ok cfg128 hist_head_trunc = true /\
+  crash_shape cfg128 (firstn 5 hist_head_trunc) = ([(3, false)], [((1, 0), true); ((3, 1), false)]) /\
+  dir_exact (disk_of (hist_run cfg128 hist_init (firstn 6 hist_head_trunc))) = true /\
+  map fst (dk_files (disk_of (hist_run cfg128 hist_init (firstn 6 hist_head_trunc)))) = [(3, 1)].
+Proof. vm_compute. repeat split; reflexivity. Qed.
+Example C13_ex_fresh_ids :
+  final_ok cfg256 hist_trunc_after_commit = true /\
+  map fst (dk_files (disk_of (hist_run cfg256 hist_init hist_trunc_after_commit))) = [(1, 0); (3, 1)] /\
+  option_map ps_next_id (dk_meta (disk_of (hist_run cfg256 hist_init hist_trunc_after_commit))) = Some 2.
+Proof. vm_compute. repeat split; reflexivity. Qed.
